@@ -3,6 +3,9 @@ import SnaxVerif.Model.Phs
 namespace SnaxVerif.Drv.C20
 open Lean SnaxVerif SnaxVerif.Drv SnaxVerif.Phs
 
+section V
+variable [Variant]
+
 def tyOf (j : Json) : Except String Ty := do
   match (← arr j).toList with
   | [c, t] => return ⟨← str c, ← str t⟩
@@ -144,7 +147,7 @@ def steps (ks : List PE) (mo : Bool) : PE → List (List Nat) → List Nat → L
 /-- args: {"bodies": [body], "groups"?: [[index]]} -> {"enc": [pe | raised], "kterm": [term|null],
 "steps": [step | raised]}. A group of several kernels is first merged into a graph of its own, which is then
 merged as a whole (`append_to_abstract_graph` with a multi-operation, mux-free `graph`); default: singletons. -/
-def history : Handler := fun j => do
+def historyV : Handler := fun j => do
   let bodies ← listOf bodyOf (← field j "bodies")
   let groups ← match j.getObjVal? "groups" with
     | .ok g => listOf (listOf nat) g
@@ -198,7 +201,7 @@ def stepsG (gs : List PE) : PE → List Nat → List Json
 /-- args: {"graphs": [pe], "plan": [index]}: graphs given directly (hand-built with the dialect's constructors,
 e.g. the inputs of the upstream tests); `plan[0]` is the element, the others are appended in order; after every
 step every graph is decoded. -> {"steps": [step | raised]} -/
-def graphs : Handler := fun j => do
+def graphsV : Handler := fun j => do
   let gs ← listOf peOf (← field j "graphs")
   let plan ← listOf nat (← field j "plan")
   match plan with
@@ -206,6 +209,17 @@ def graphs : Handler := fun j => do
   | i0 :: r => match gs[i0]? with
     | none => throw "plan index out of range"
     | some A0 => return Json.mkObj [("steps", Json.arr (stepsG gs A0 r).toArray)]
+
+end V
+
+/-- `"fixed": true` (default) selects the model of the tree with fixes/DC20a, `false` the tree before it -/
+def variantOf (j : Json) : Variant :=
+  match j.getObjVal? "fixed" with
+  | .ok (.bool b) => ⟨b⟩
+  | _ => ⟨true⟩
+
+def history : Handler := fun j => @historyV (variantOf j) j
+def graphs : Handler := fun j => @graphsV (variantOf j) j
 
 def handlers : List (String × Handler) :=
   [("c20.history", history), ("c20.fromops", fromOps), ("c20.graphs", graphs)]
